@@ -693,3 +693,8 @@ PROOF_MODULES = PROOF_MODULES + ['Compute.Lemmas.SrcLoops']
 PROOF_MODULES = PROOF_MODULES + [m for m in ['Compute.Lemmas.Rounding5', 'Compute.Props.Rounding5'] if m not in PROOF_MODULES]
 REQUIRED_THEOREMS = REQUIRED_THEOREMS + ['Cv.Rounding5.onepass_error', 'Cv.Rounding5.onepass_exact_eq_comoment', 'Cv.Rounding5.online_error_partial', 'Cv.Rounding5.online_pert_partial']
 NOT_PROVED = list(NOT_PROVED) + ['the one-pass covariance IS bounded by theorem in the standard model (Props/Rounding5 onepass_error: (gamma_(n+6) sum|dx dy| + gamma_(2n+8) (sum|dx|)(sum|dy|)/n)/(n-1) with data shifted by the first point, exhibiting the cancellation-sensitivity); for the online algorithm only the accumulation is bounded (online_error_partial: gamma_(n+4) relative to the products of deviations from the computed running means, exact counter assumed) - the effect of the running-mean errors is oracle only']
+
+# --- deep theorems (Rounding6: end-to-end residual / backward-error bounds in the standard model, wired by the lead)
+PROOF_MODULES = PROOF_MODULES + [m for m in ['Compute.Lemmas.Rounding6', 'Compute.Props.Rounding6'] if m not in PROOF_MODULES]
+REQUIRED_THEOREMS = REQUIRED_THEOREMS + ['Cv.Rounding6.online_error', 'Cv.Rounding6.online_means', 'Cv.Rounding6.comoment_snoc', 'Cv.Rounding6.onlineC_invariant']
+NOT_PROVED = list(NOT_PROVED) + ["the online covariance IS bounded by theorem (Props/Rounding6 online_error: (gamma_(n+4)(n Rx Ry + D) + D)/(n-1), D = n(Rx Ey + Ry Ex + Ex Ey), E = (n/2+6.5) u max|.|; representable data, exact counter), its running means being Welford's (online_means)"]
